@@ -47,13 +47,14 @@ pub fn evaluate_expression(expr: &str, facts: &Facts) -> Result<Value> {
     // Could be: string literal, field reference (Order.quantity), number (100), or variable
 
     // Is it a string literal?
-    if expr.len() >= 2 {
-        let unquoted = &expr[1..expr.len() - 1];
-        if (expr.starts_with('"') && expr.ends_with('"') && !unquoted.contains('"'))
-            || (expr.starts_with('\'') && expr.ends_with('\'') && !unquoted.contains('\''))
+    for quote in ['"', '\''] {
+        if let Some(unquoted) = expr
+            .strip_prefix(quote)
+            .and_then(|rest| rest.strip_suffix(quote))
         {
-            let unquoted = &expr[1..expr.len() - 1];
-            return Ok(Value::String(unquoted.to_string()));
+            if !unquoted.contains(quote) {
+                return Ok(Value::String(unquoted.to_string()));
+            }
         }
     }
 
@@ -84,7 +85,7 @@ fn find_operator(expr: &str, operators: &[char]) -> Option<usize> {
     let mut paren_depth = 0;
     let mut last_pos = None;
 
-    for (i, ch) in expr.chars().enumerate() {
+    for (i, ch) in expr.char_indices() {
         match ch {
             '(' => paren_depth += 1,
             ')' => paren_depth -= 1,
@@ -120,8 +121,8 @@ fn apply_operator(left: &Value, op: &str, right: &Value) -> Result<Value> {
         return Ok(Value::String(concatenated));
     }
 
-    let left_num = left_num.unwrap();
-    let right_num = right_num.unwrap();
+    let left_num = left_num?;
+    let right_num = right_num?;
 
     let result = match op {
         "+" => left_num + right_num,
